@@ -26,3 +26,8 @@ VARIANTS += [
          [(RS15, "        qubits = len(self.measured_qubits)\n        rf = self._relative_frequencies", "        qubits = len(self._trace.used_qubits)\n        rf = self._relative_frequencies")],
          ("C15.7", "relative_frequency_by_str:width-source"), ("C15",)),
 ]
+VARIANTS += [
+    fire("c15-zero-counts-polarity",
+         [(RS15, "        if relative_frequencies is None:\n            self._relative_frequencies = numpy.zeros", "        if relative_frequencies is not None:\n            self._relative_frequencies = numpy.zeros")],
+         ("C15.8", "zero-counts-when-none-given"), ("C15",)),
+]
